@@ -1,13 +1,14 @@
 (* C18 — canonical form is valid, value-preserving and layout-independent.
    Statements only; each is closed by [exact] of a lemma proved elsewhere.
-   [T1] (specification level): all proved except the decoder round trip, which is proved for
-   everything but struct lists (C18_cparse_enc_partial; full statement: cparse_enc_statement).
+   [T1] (specification level): all proved, for all values.
    NOTE: the relation of C18_canon_unique is value_eqs (no list upgrade), not Equal's value_eq:
    a primitive list and the equivalent struct list are value_eq but have different canonical forms.
-   [T2] (canon_m_correct_statement: the Go-faithful model computes canon o denote) is stated,
-   proved for the null struct only, and otherwise covered by the correspondence run. *)
-From CV Require Import Value.ValueEq Value.CanonSpec Value.CanonProofs Value.CanonProofs2
-                       Value.EqualM Value.CanonM Value.EqualProofs Value.CanonMProofs.
+   [T2] (canon_m_correct_statement: the Go-faithful model computes canon of the denoted value) is
+   stated in full and proved in stages (null struct; canonicalStructSize for every struct; end to
+   end for all-default structs); the heap-level induction is open and covered by the run. *)
+From CV Require Import Value.ValueEq Value.CanonSpec Value.CanonProofs Value.CanonProofs2 Value.CanonProofs3
+                       Value.EqualM Value.CanonM Value.EqualProofs Value.CanonMProofs Value.CanonMStruct Value.Den.
+From CV Require Import Core.ReaderFacts Core.SafetyProofs.
 Open Scope Z_scope.
 
 (* layout / version independence: values equal at the schema level (trailing default fields,
@@ -26,14 +27,33 @@ Theorem C18_canon_norm : forall v, wfv v = true -> nocap (norm v) = true -> cano
 Proof. exact canon_norm. Qed.
 Print Assumptions C18_canon_norm.
 
-(* ... and the strict pre-order decoder returns exactly the representative (null, structs, void
-   lists, pointer lists, bit lists, primitive lists -- everything but struct lists; any
-   position, any continuation) *)
-Theorem C18_cparse_enc_partial : forall f v pos cur w body rest,
+(* ... the strict pre-order decoder inverts the layout for every normal-form value (null,
+   structs, all list kinds), at any position and before any continuation ... *)
+Theorem C18_cparse_enc : forall f v pos cur w body rest,
   skel v = true -> enc f v pos cur = COk (w, body) ->
   cparse f w pos cur (body ++ rest) = Some (v, rest).
 Proof. exact cparse_enc_partial. Qed.
-Print Assumptions C18_cparse_enc_partial.
+Print Assumptions C18_cparse_enc.
+
+(* ... hence, for EVERY well-formed capability-free value with in-range fields ([good]), the
+   canonical BYTES decode (strict pre-order decoder: contiguous, pre-order, zero padding) to
+   exactly the canonical representative ... *)
+Theorem C18_cdecode_canon : forall v bs, good v -> canon v = Some bs ->
+  cdecode (S (vdepth (norm v))) bs = Some (norm v).
+Proof. exact cdecode_canon. Qed.
+Print Assumptions C18_cdecode_canon.
+
+(* ... which is equal to the value (value preservation) ... *)
+Theorem C18_canon_decodes_equal : forall v bs, good v -> canon v = Some bs ->
+  exists v', cdecode (S (vdepth (norm v))) bs = Some v' /\ value_eqs v' v = true /\ value_eq v' v = true.
+Proof. exact canon_decodes_equal. Qed.
+Print Assumptions C18_canon_decodes_equal.
+
+(* ... and canonicalising what was read back returns the same bytes (idempotence) *)
+Theorem C18_canon_idempotent : forall v bs v', good v -> canon v = Some bs ->
+  cdecode (S (vdepth (norm v))) bs = Some v' -> canon v' = Some bs.
+Proof. exact canon_idempotent. Qed.
+Print Assumptions C18_canon_idempotent.
 
 (* the output is a single word-aligned segment (at least the root pointer) *)
 Theorem C18_canon_aligned : forall v bs, canon v = Some bs ->
@@ -46,12 +66,58 @@ Theorem C18_canon_cap_none : forall v, has_cap (norm v) = true -> canon v = None
 Proof. exact canon_cap_none. Qed.
 Print Assumptions C18_canon_cap_none.
 
-(* model level: the null struct *)
+(* ---- [T2] model level (canon_m_correct_statement, CanonMProofs.v: stated in full, proved in stages) ---- *)
+(* the null struct *)
 Theorem C18_canon_m_null_partial : forall fuel c fx m rl s,
   p_valid s = false ->
   canonicalize c fx fuel m rl s = (KOk (repeat 0 8%nat), rl) /\ canon VNull = Some (repeat 0 8%nat).
 Proof. exact canon_m_null_partial. Qed.
 Print Assumptions C18_canon_m_null_partial.
+
+(* trailing-zero truncation: for EVERY struct of every message, canonicalStructSize is the
+   size of the canonical representative of the denoted value (data words after strip0,
+   pointers after stripN) *)
+Theorem C18_canonicalStructSize_spec : forall m mid caps s v,
+  msg_ok m -> wf_ptr m s -> p_valid s = true -> p_kind s = KStruct -> DataSize (p_size s) mod 8 = 0 ->
+  den true m mid caps s v ->
+  exists ws vs, v = VStruct ws vs /\
+    canonicalStructSize true true m s = Ok (mkOS (8 * zlen (strip0 ws)) (zlen (stripN vs))).
+Proof. exact canonicalStructSize_spec. Qed.
+Print Assumptions C18_canonicalStructSize_spec.
+
+(* end to end: every struct whose fields are all default canonicalises to the empty-struct
+   message, which is the specification's canonical form of its value *)
+Theorem C18_canon_m_default_struct_partial : forall c fx fuel m rl s v,
+  cfg_strict c = true -> all_cfixed fx -> msg_ok m -> wf_ptr m s ->
+  p_valid s = true -> p_kind s = KStruct -> DataSize (p_size s) mod 8 = 0 ->
+  den true m 0 [] s v ->
+  (exists ws vs, v = VStruct ws vs /\ all_zero ws = true /\ forallb is_null vs = true) ->
+  canonicalize c fx (S fuel) m rl s = (KOk empty_struct_msg, rl) /\ canon v = Some empty_struct_msg.
+Proof. exact canon_m_default_struct_partial. Qed.
+Print Assumptions C18_canon_m_default_struct_partial.
+
+(* consequences of the full [T2] statement together with the proved [T1] theorems *)
+Theorem C18_canon_m_layout_independent_if : canon_m_correct_statement ->
+  forall fuel c fx m1 rl1 s1 v1 m2 rl2 s2 v2 bs1 bs2 r1 r2,
+    all_cfixed fx -> cfg_strict c = true -> msg_ok m1 -> msg_ok m2 -> wf_ptr m1 s1 -> wf_ptr m2 s2 ->
+    (p_valid s1 = true -> p_kind s1 = KStruct /\ DataSize (p_size s1) mod 8 = 0) ->
+    (p_valid s2 = true -> p_kind s2 = KStruct /\ DataSize (p_size s2) mod 8 = 0) ->
+    den true m1 0 [] s1 v1 -> den true m2 0 [] s2 v2 ->
+    nocap v1 = true -> value_eqs v1 v2 = true ->
+    canonicalize c fx fuel m1 rl1 s1 = (KOk bs1, r1) -> canonicalize c fx fuel m2 rl2 s2 = (KOk bs2, r2) ->
+    bs1 = bs2.
+Proof. exact canon_m_layout_independent_if. Qed.
+Print Assumptions C18_canon_m_layout_independent_if.
+
+Theorem C18_canon_m_value_preserved_if : canon_m_correct_statement ->
+  forall fuel c fx m rl s v bs r,
+    all_cfixed fx -> cfg_strict c = true -> msg_ok m -> wf_ptr m s ->
+    (p_valid s = true -> p_kind s = KStruct /\ DataSize (p_size s) mod 8 = 0) ->
+    den true m 0 [] s v -> good v ->
+    canonicalize c fx fuel m rl s = (KOk bs, r) ->
+    exists v', cdecode (S (vdepth (norm v))) bs = Some v' /\ value_eqs v' v = true /\ value_eq v' v = true.
+Proof. exact canon_m_value_preserved_if. Qed.
+Print Assumptions C18_canon_m_value_preserved_if.
 
 (* F04, the code as found: panic on a data-only struct list at the end of a cap == len
    segment, wrong bytes otherwise; the repaired model returns the specification's bytes *)
